@@ -58,7 +58,7 @@ func c19Sig(o *Oracle, c consCase) string {
 func init() {
 	stages["c19-search"] = func(ctx *Ctx, cnt func(q, t int) int, replay string) Result {
 		col := NewCollector("C19", "search", "C01's generators; the five solutions U, I, D(S,C), X, D(C,S) and the inputs are handed to the Lean oracle as seven labelled path sets; a face is bad when one of the pointwise identities X=U∧¬I, D=S∧¬I, {D,I,D'} disjoint with union U, [U]+[I]=[S]+[C] fails outside the 2-band of the input edges; UnionPaths64(S) compared with UnionWithClipPaths64(S, ∅); non-trivial = Intersection and Difference both non-empty")
-		parallelFor(ctx, cnt(1500, 80000), true, col, func(o *Oracle, i int) {
+		parallelFor(ctx, cnt(6000, 80000), true, col, func(o *Oracle, i int) {
 			r := NewRng(ctx.Seed, "c19", i)
 			g := pickCfg(r, ctx.Tier)
 			mv, mp := 7, 3
